@@ -11,6 +11,7 @@ Proof.
   - by apply inv_new_message.
   - by apply inv_new_enum.
   - by apply inv_new_enum_value.
+  - by apply inv_new_other.
   - by apply inv_net_add_bus.
   - by apply inv_net_remove_bus.
   - by apply inv_net_remove_all_buses.
